@@ -14,6 +14,7 @@ Obligations [N]: the butterfly invariant is inductive (a fixpoint <= 8q exists f
 documented lazy input range), no addition can exceed 2^64, no subtraction can underflow, the non-lazy
 forms end in [0, q), the lazy forms inside their documented output range (forward 4q, inverse 2q).
 """
+import re
 from facts import walk, callee, strip, local_of
 
 TOP = None          # unknown range
@@ -92,6 +93,19 @@ def cond_sub(x, c, strict):
     return join_r(parts)
 
 
+def place_key(e):
+    """key of an element place: a local (through refs/derefs) or `base[i]` of a local slice (one abstract element)"""
+    e = strip(e)
+    lo = local_of(e)
+    if lo:
+        return lo[0]
+    if isinstance(e, dict) and e.get("k") == "Index":
+        b = local_of(e["e"])
+        if b:
+            return ("idx", b[0])
+    return None
+
+
 class RangeInterp:
     """Abstract evaluator for the small arithmetic functions of the transform core."""
 
@@ -99,98 +113,166 @@ class RangeInterp:
         self.facts = facts
         self.consts = consts or {}        # lid -> exact multiple of q (helper locals of an enclosing function)
 
-    def const_of(self, e):
-        """exact multiple of q denoted by an expression (self.two_times_modulus -> 2, modulus.value() -> 1, c << 1)"""
+    def const_of(self, e, env=None):
+        """exact multiple of q denoted by an expression (self.two_times_modulus -> 2, modulus.value() -> 1, c << 1, 0,
+        a local bound to one of these)"""
         e = strip(e)
         k = e.get("k")
+        if k == "Cast":
+            return self.const_of(e["e"], env)
         if k == "Field" and e.get("name") == "two_times_modulus":
             return 2
+        if k == "Lit" and re.sub(r"_?(u64|usize|u32|i64)$", "", str(e.get("v", ""))) == "0":
+            return 0
         if k == "Path" and e.get("res") == "local":
             if e["lid"] in self.consts:
                 return self.consts[e["lid"]]
+            if env is not None:
+                r = env.get(e["lid"])
+                if isinstance(r, tuple) and len(r) == 3 and r[0] == r[1] and r[2]:
+                    return r[0]
             return None
         if k == "MCall" and e.get("name") == "value" and not e["args"]:
             return 1
         if k == "Bin" and e.get("op") == "<<":
-            c = self.const_of(e["a"])
+            c = self.const_of(e["a"], env)
             sh = strip(e["b"])
             if c is not None and sh.get("k") == "Lit" and str(sh.get("v", "")).split("_")[0].isdigit():
                 return c << int(str(sh["v"]).split("_")[0])
+        if k == "Bin" and e.get("op") == "*":
+            for x, y in ((e["a"], e["b"]), (e["b"], e["a"])):
+                c = self.const_of(x, env)
+                l = strip(y)
+                if c is not None and l.get("k") == "Lit" and str(l.get("v", "")).split("_")[0].isdigit():
+                    return c * int(str(l["v"]).split("_")[0])
         return None
 
-    # -------------------------------------------------------------- sign-mask idiom
-    def mask_of(self, e, env):
-        """((A.wrapping_sub(B) as i64) >> 63) as u64  ->  ('lt', A, B): all ones iff A < B (magnitudes < 2^63)."""
+    # -------------------------------------------------------------- conditions, masks, conditional amounts
+    NEG = {"lt": "ge", "ge": "lt", "gt": "le", "le": "gt"}
+    OPS = {"<": "lt", ">=": "ge", ">": "gt", "<=": "le"}
+
+    def cond_of(self, e, env):
+        """comparison -> (rel, A, B)"""
         e = strip(e)
         if e.get("k") == "Cast":
+            return self.cond_of(e["e"], env)
+        if e.get("k") == "Bin" and e.get("op") in self.OPS:
+            return (self.OPS[e["op"]], e["a"], e["b"])
+        if e.get("k") == "Un" and e.get("op") == "!":
+            c = self.cond_of(e["e"], env)
+            return (self.NEG[c[0]], c[1], c[2]) if c else None
+        if e.get("k") == "Path" and e.get("res") == "local" and isinstance(env.get(("cond", e["lid"])), tuple):
+            return env[("cond", e["lid"])]
+        return None
+
+    def mask_of(self, e, env):
+        """all-ones-iff-condition masks:
+           ((A.wrapping_sub(B) as i64) >> 63) as u64          -> A < B   (magnitudes below 2^63)
+           0u64.wrapping_sub((cond) as u64) / (cond as u64).wrapping_neg()  -> cond
+           !mask                                               -> negation"""
+        e = strip(e)
+        k = e.get("k")
+        if k == "Cast":
             return self.mask_of(e["e"], env)
-        if e.get("k") == "Bin" and e.get("op") == ">>" and strip(e["b"]).get("v", "").split("_")[0] == "63":
+        if k == "Bin" and e.get("op") == ">>" and strip(e["b"]).get("v", "").split("_")[0] == "63":
             inner = strip(e["a"])
             while inner.get("k") == "Cast":
                 inner = strip(inner["e"])
             if inner.get("k") == "MCall" and inner.get("name") == "wrapping_sub" and inner["args"]:
                 return ("lt", inner["recv"], inner["args"][0])
-        if e.get("k") == "Path" and e.get("res") == "local" and isinstance(env.get(("mask", e["lid"])), tuple):
+        if k == "MCall" and e.get("name") == "wrapping_sub" and e["args"] and self.const_of(e["recv"]) == 0:
+            return self.cond_of(e["args"][0], env)
+        if k == "MCall" and e.get("name") == "wrapping_neg" and not e["args"]:
+            return self.cond_of(e["recv"], env)
+        if k == "Path" and e.get("res") == "local" and isinstance(env.get(("mask", e["lid"])), tuple):
             return env[("mask", e["lid"])]
-        if e.get("k") == "Un" and e.get("op") == "!":
+        if k == "Un" and e.get("op") == "!":
             m = self.mask_of(e["e"], env)
             if m:
-                return ("ge", m[1], m[2]) if m[0] == "lt" else ("lt", m[1], m[2])
+                return (self.NEG[m[0]], m[1], m[2])
         return None
 
-    def masked_const(self, e, env):
-        """C & mask  ->  (C multiple, condition)"""
+    def cond_amount(self, e, env):
+        """an amount that is C under a condition and 0 otherwise:  C & mask | if cond {C} else {0} | if cond {0} else {C}
+           | (cond as u64) * C     ->  (C, (rel, A, B))"""
         e = strip(e)
-        if e.get("k") == "Bin" and e.get("op") == "&":
+        k = e.get("k")
+        if k == "Bin" and e.get("op") == "&":
             for c_e, m_e in ((e["a"], e["b"]), (e["b"], e["a"])):
-                c = self.const_of(c_e)
+                c = self.const_of(c_e, env)
                 m = self.mask_of(m_e, env)
                 if c is not None and m is not None:
                     return c, m
+        if k == "Bin" and e.get("op") == "*":
+            for c_e, m_e in ((e["a"], e["b"]), (e["b"], e["a"])):
+                c = self.const_of(c_e, env)
+                m = self.cond_of(m_e, env) if strip(m_e).get("k") == "Cast" else None
+                if c is not None and m is not None:
+                    return c, m
+        if k == "If" and e.get("el") is not None:
+            cd = self.cond_of(e["c"], env)
+            t, f = self.const_of(e["th"], env), self.const_of(e["el"], env)
+            if cd and t is not None and f == 0 and t != 0:
+                return t, cd
+            if cd and f is not None and t == 0 and f != 0:
+                return f, (self.NEG[cd[0]], cd[1], cd[2])
         return None
+
+    def as_cond_sub(self, x_expr, amount, env):
+        """X - amount where amount is C exactly when X >= C (-> False) or X > C (-> True, strict); None if the amount is
+        not conditional, 'other' if it is conditional on something else"""
+        ca = self.cond_amount(amount, env)
+        if ca is None:
+            return None
+        C, (rel, A, B) = ca
+        px = place_key(x_expr)
+        if px is not None and place_key(A) == px and self.const_of(B, env) == C and rel in ("ge", "gt"):
+            return C, rel == "gt"
+        if px is not None and place_key(B) == px and self.const_of(A, env) == C and rel in ("le", "lt"):
+            return C, rel == "lt"
+        return "other"
+
+    def bind_let(self, s, env, ob, arith):
+        lid = s["pat"]["lid"]
+        m = self.mask_of(s["init"], env)
+        if m is not None:
+            env[("mask", lid)] = m
+            return
+        if self.facts.ty(s["pat"]) == "bool" and self.cond_of(s["init"], env) is not None:
+            env[("cond", lid)] = self.cond_of(s["init"], env)
+            return
+        env[lid] = self.ev(s["init"], env, ob, arith)
 
     # -------------------------------------------------------------- expressions
     def ev(self, e, env, ob, arith=None):
         e = strip(e)
         k = e.get("k")
-        c = self.const_of(e)
+        c = self.const_of(e, env)
         if c is not None:
             return (c, c, True)
         if k == "Path" and e.get("res") == "local":
             return env.get(e["lid"], TOP)
+        if k == "Index" and place_key(e) is not None:
+            return env.get(place_key(e), TOP)
         if k == "Block":
             env2 = dict(env)
             for s in e.get("stmts", []):
                 if s.get("k") == "Let" and s["pat"].get("k") == "PBind" and "init" in s:
-                    m = self.mask_of(s["init"], env2)
-                    if m is not None:
-                        env2[("mask", s["pat"]["lid"])] = m
-                    else:
-                        env2[s["pat"]["lid"]] = self.ev(s["init"], env2, ob, arith)
+                    self.bind_let(s, env2, ob, arith)
                 elif s.get("k") in ("Semi", "Expr"):
                     self.exec(s["e"], env2, ob, arith)
             return self.ev(e["expr"], env2, ob, arith) if e.get("expr") else TOP
         if k == "Bin":
             op = e["op"]
             if op == "-":
-                mc = self.masked_const(e["b"], env)
-                if mc is not None:
-                    # X - (C & mask): conditional subtraction; the mask condition must compare X itself with C
-                    C, (rel, A, B) = mc
-                    x = self.ev(e["a"], env, ob, arith)
-                    xa, xb = local_of(A), local_of(B)
-                    xl = local_of(e["a"])
-                    ca, cb = self.const_of(A), self.const_of(B)
-                    if xl and xb and xb[0] == xl[0] and ca == C:
-                        # mask set iff C < X  (rel lt)  or C >= X (rel ge)
-                        if rel == "lt":
-                            return self._checked_cond_sub(x, C, True, ob, e)
-                    if xl and xa and xa[0] == xl[0] and cb == C:
-                        # mask set iff X < C (lt) / X >= C (ge)
-                        if rel == "ge":
-                            return self._checked_cond_sub(x, C, False, ob, e)
-                    ob.unmodelled("masked subtraction whose mask does not test the subtracted value against the constant", e)
+                cs = self.as_cond_sub(e["a"], e["b"], env)
+                if cs == "other":
+                    ob.unmodelled("subtraction of an amount conditional on something other than the subtracted value "
+                                  "compared with that amount", e)
                     return TOP
+                if cs is not None:
+                    x = self.ev(e["a"], env, ob, arith)
+                    return TOP if x is TOP else cond_sub(x, cs[0], cs[1])
             if op in ("+", "-"):
                 a = self.ev(e["a"], env, ob, arith)
                 b = self.ev(e["b"], env, ob, arith)
@@ -198,22 +280,22 @@ class RangeInterp:
             ob.unmodelled("operator %s" % op, e)
             return TOP
         if k == "If":
-            c = strip(e["c"])
-            if c.get("k") == "Bin" and c.get("op") in (">=", ">"):
-                x = self.ev(c["a"], env, ob, arith)
-                C = self.const_of(c["b"])
+            cd = self.cond_of(e["c"], env)
+            if cd is not None and cd[0] in ("ge", "gt"):
+                x = self.ev(cd[1], env, ob, arith)
+                C = self.const_of(cd[2], env)
                 if C is not None and x is not TOP:
-                    strict = c["op"] == ">"
+                    strict = cd[0] == "gt"
                     lo, hi, incl = x
                     parts = []
                     if hi > C or (hi == C and incl and not strict):
-                        t = self.ev(e["th"], self._refined(env, c["a"], (max(lo, C), hi, incl)), ob, arith)
+                        t = self.ev(e["th"], self._refined(env, cd[1], (max(lo, C), hi, incl)), ob, arith)
                         if t is TOP:
                             return TOP
                         parts.append(t)
                     if lo < C or (lo == C and strict):
                         rng = (lo, C, strict) if (hi > C or (hi == C and incl)) else (lo, hi, incl)
-                        el = self.ev(e["el"], self._refined(env, c["a"], rng), ob, arith) if e.get("el") else rng
+                        el = self.ev(e["el"], self._refined(env, cd[1], rng), ob, arith) if e.get("el") else rng
                         if el is TOP:
                             return TOP
                         parts.append(el)
@@ -230,6 +312,8 @@ class RangeInterp:
             if arith is not None and name in arith and e.get("k") == "MCall":
                 args = [self.ev(a, env, ob, arith) for a in e["args"]]
                 return arith[name](args, ob, e)
+            if self.helper_of(e) is not None:
+                return self.inline(e, env, ob, arith)
             ob.unmodelled("call to %s" % name, e)
             return TOP
         ob.unmodelled("expression kind %s" % k, e)
@@ -248,51 +332,120 @@ class RangeInterp:
         env[lo[0]] = rng
         return env
 
+    def helper_of(self, e):
+        """(path, params, body) of a crate-local, non-Arithmetic helper called by e (a butterfly extracted into a fn)"""
+        if e.get("k") not in ("Call", "MCall"):
+            return None
+        f = callee(e)
+        if not f or not f.get("local"):
+            return None
+        d = f.get("inst") if f.get("inst") in self.facts.hir else f["def"]
+        it = self.facts.items.get(d)
+        if d not in self.facts.hir or not it or it.get("impl_trait"):
+            return None
+        return d, it["params"], self.facts.hir[d]
+
+    def inline(self, e, env, ob, arith, depth=0):
+        """execute a local helper on the caller's places: parameters bound to the values of the argument places,
+        `&mut` parameters copied back.  -> value of the helper's body"""
+        h = self.helper_of(e)
+        if h is None or depth > 2:
+            ob.unmodelled("call to %s" % ((callee(e) or {}).get("name") or e.get("name")), e)
+            return TOP
+        d, params, body = h
+        args = ([e["recv"]] if e["k"] == "MCall" else []) + e["args"]
+        env2 = {}
+        back = []
+        for prm, a in zip(params, args):
+            if prm["pat"].get("k") != "PBind":
+                continue
+            lid = prm["pat"]["lid"]
+            c = self.const_of(a)
+            pk = place_key(a)
+            if c is not None:
+                env2[lid] = (c, c, True)
+            elif pk is not None and pk in env:
+                env2[lid] = env[pk]
+                if prm.get("ty", "").startswith("&mut"):
+                    back.append((lid, pk))
+        r = self.ev(body, env2, ob, arith) if self.facts.items[d].get("ret") not in (None, "", "()") else None
+        if r is None:
+            self.exec(body, env2, ob, arith)
+        for lid, pk in back:
+            env[pk] = env2.get(lid, TOP)
+        return r if r is not None else TOP
+
     def exec(self, e, env, ob, arith):
         """statement level: `*x = ...`, `*x -= C` under `if *x >= C`, lets, blocks."""
         e = strip(e)
         k = e.get("k")
+        if k in ("Call", "MCall") and self.helper_of(e) is not None:
+            self.inline(e, env, ob, arith)
+            return
         if k == "Assign":
-            lo = local_of(e["lhs"])
-            if lo:
-                env[lo[0]] = self.ev(e["rhs"], env, ob, arith)
+            pk = place_key(e["lhs"])
+            if pk is not None:
+                env[pk] = self.ev(e["rhs"], env, ob, arith)
         elif k == "AssignOp" and e.get("op", "").startswith("-"):
-            lo = local_of(e["lhs"])
-            if lo:
-                env[lo[0]] = sub(env.get(lo[0], TOP), self.ev(e["rhs"], env, ob, arith), ob, e)
+            pk = place_key(e["lhs"])
+            if pk is not None:
+                cs = self.as_cond_sub(e["lhs"], e["rhs"], env)
+                x = env.get(pk, TOP)
+                if cs == "other":
+                    ob.unmodelled("subtraction of an amount conditional on something other than the subtracted value "
+                                  "compared with that amount", e)
+                    env[pk] = TOP
+                elif cs is not None:
+                    env[pk] = TOP if x is TOP else cond_sub(x, cs[0], cs[1])
+                else:
+                    env[pk] = sub(x, self.ev(e["rhs"], env, ob, arith), ob, e)
         elif k == "If":
-            c = strip(e["c"])
-            lo = local_of(c["a"]) if c.get("k") == "Bin" else None
-            C = self.const_of(c["b"]) if c.get("k") == "Bin" else None
-            if c.get("k") == "Bin" and c.get("op") in (">=", ">") and not e.get("el") and lo and C is not None:
-                x = env.get(lo[0], TOP)
+            cd = self.cond_of(e["c"], env)
+            pk = place_key(cd[1]) if cd else None
+            C = self.const_of(cd[2], env) if cd else None
+            if cd and cd[0] in ("ge", "gt") and not e.get("el") and pk is not None and C is not None:
+                x = env.get(pk, TOP)
                 if x is TOP:
                     return
-                strict = c["op"] == ">"
+                strict = cd[0] == "gt"
                 l, h, incl = x
                 parts = []
                 if h > C or (h == C and incl and not strict):
                     env_t = dict(env)
-                    env_t[lo[0]] = (max(l, C), h, incl)
+                    env_t[pk] = (max(l, C), h, incl)
                     self.exec(e["th"], env_t, ob, arith)
-                    parts.append(env_t[lo[0]])
+                    parts.append(env_t[pk])
                 if l < C or (l == C and strict):
                     parts.append((l, C, strict) if (h > C or (h == C and incl)) else (l, h, incl))
-                env[lo[0]] = join_r(parts)
+                env[pk] = join_r(parts)
             else:
                 ob.unmodelled("conditional statement of an unmodelled form", e)
         elif k == "Block":
             for s in e.get("stmts", []):
                 if s.get("k") == "Let" and s["pat"].get("k") == "PBind" and "init" in s:
-                    m = self.mask_of(s["init"], env)
-                    if m is not None:
-                        env[("mask", s["pat"]["lid"])] = m
-                    else:
-                        env[s["pat"]["lid"]] = self.ev(s["init"], env, ob, arith)
+                    self.bind_let(s, env, ob, arith)
                 elif s.get("k") in ("Semi", "Expr"):
                     self.exec(s["e"], env, ob, arith)
             if e.get("expr"):
                 self.exec(e["expr"], env, ob, arith)
+        elif k in ("Call", "MCall", "AssignOp", "Match", "Loop", "While", "For"):
+            ob.unmodelled("statement kind %s" % k, e)
+
+
+def element_body(body):
+    """(element binding lid, body) of the per-element epilogue of a non-lazy wrapper: the last
+    `x.iter_mut().for_each(|x| ..)` closure or `for x in x.iter_mut() {..}` loop"""
+    cands = []
+    for x in walk(body):
+        if x.get("k") == "Closure" and x.get("params") and x["params"][0].get("k") == "PBind":
+            cands.append(((x.get("l", 0), x.get("c", 0)), x["params"][0]["lid"], x["body"]))
+        if x.get("k") == "For" and x["pat"].get("k") == "PBind" and \
+                any(y.get("k") == "MCall" and y.get("name") == "iter_mut" for y in walk(x["iter"])):
+            cands.append(((x.get("l", 0), x.get("c", 0)), x["pat"]["lid"], x["body"]))
+    if not cands:
+        return None, None
+    cands.sort(key=lambda t: t[0])
+    return cands[-1][1], cands[-1][2]
 
 
 def arith_summaries(facts, interp, rep, Rn):
@@ -327,11 +480,34 @@ def butterfly(facts, interp, arith, fpath, start, rep, Rn):
     """Least inductive bound of the butterfly body of a DWTHandler transform from element range `start`.
     -> (range or None, trace, failed obligations, unmodelled constructs, loop node)"""
     body = facts.hir[fpath]
-    loops = [x for x in walk(body) if x.get("k") == "For" and x["pat"].get("k") == "PTuple" and len(x["pat"]["ps"]) == 2]
+    # the butterfly loop: the innermost `for` whose body stores to element places and calls the arithmetic's add and sub
+    loops = []
+    for x in walk(body):
+        if x.get("k") != "For":
+            continue
+        names = {y.get("name") for y in walk(x["body"]) if y.get("k") == "MCall"}
+        stores = [place_key(y["lhs"]) for y in walk(x["body"]) if y.get("k") == "Assign" and place_key(y["lhs"]) is not None]
+        for y in walk(x["body"]):
+            h = interp.helper_of(y) if y.get("k") in ("Call", "MCall") else None
+            if h is not None:
+                names |= {z.get("name") for z in walk(h[2]) if z.get("k") == "MCall"}
+                args = ([y["recv"]] if y["k"] == "MCall" else []) + y["args"]
+                for prm, a in zip(h[1], args):
+                    if prm.get("ty", "").startswith("&mut") and place_key(a) is not None:
+                        stores.append(place_key(a))
+        inner = any(y.get("k") == "For" for y in walk(x["body"]))
+        if {"add", "sub"} <= names and stores and not inner:
+            loops.append((x, stores))
     if not rep.anchor(Rn, fpath + "/butterfly", bool(loops)):
         return None, [], [], [], None
-    L = loops[0]
-    xl, yl = L["pat"]["ps"][0].get("lid"), L["pat"]["ps"][1].get("lid")
+    L, stores = loops[0]
+    places = []
+    for pk in stores:
+        if pk not in places:
+            places.append(pk)
+    if len(places) != 2:
+        return None, [], [], [("the butterfly loop stores to %d element places, expected 2" % len(places), L)], L
+    xl, yl = places
     cur = start
     trace = []
     for _ in range(12):
@@ -411,12 +587,10 @@ def run(facts, rep):
             continue
         rng = results[base]
         body = facts.hir[p]
-        cl = [x for x in walk(body) if x.get("k") == "Closure"]
-        if not cl:
+        xl, ebody = element_body(body)
+        if ebody is None:
             rep.violation(Rn, nm + "/epilogue", "%s has no reduction epilogue after the lazy transform" % p, facts.loc(p))
             continue
-        c = cl[-1]
-        xl = c["params"][0].get("lid") if c["params"] else None
         consts = {}
         i0 = RangeInterp(facts)
         for s in body.get("stmts", []):
@@ -428,7 +602,7 @@ def run(facts, rep):
         i2 = RangeInterp(facts, consts)
         ob = Obl()
         env2 = {xl: rng}
-        i2.exec(c["body"], env2, ob, None)
+        i2.exec(ebody, env2, ob, None)
         fin = env2.get(xl, TOP)
         if ob.unknown:
             rep.unresolved(Rn, nm + "/epilogue", "epilogue uses an unmodelled construct: %s" % ob.unknown[0][0], facts.loc(p))
